@@ -221,7 +221,12 @@ func TestVerifTickerStall(t *testing.T) {
 		s.policyMu.Lock()
 		time.Sleep(1200 * time.Millisecond)
 		vsetNow(t0 + 40_000_000_000)
-		time.Sleep(1300 * time.Millisecond)
+		// a maintenance tick (one per second of real time) has to refresh the cached clock although the policy lock is
+		// taken; give it time that does not depend on how busy the machine is: up to 20 s, but no longer than needed
+		target := s.timerwheel.clock.NowNano()
+		for waited := 0; s.timerwheel.clock.NowNanoCached() < target && waited < 1000; waited++ {
+			time.Sleep(20 * time.Millisecond)
+		}
 		v, ok := s.Get(1)
 		s.policyMu.Unlock()
 		if ok {
